@@ -163,13 +163,13 @@ func c04PickFormat(name string, maxPlaces int) c04Format {
 
 // where the format is declared
 const (
-	c04InDoc       = iota // no workspace; `commodity` directive in the document
-	c04InDocD             // no workspace; `D` directive in the document
-	c04InRoot             // workspace; `commodity` directive in main.journal, which includes the document
-	c04InSibling          // workspace; `commodity` directive in a sibling file included by main.journal
-	c04InDocWs            // workspace; `commodity` directive in the document (included by main.journal)
-	c04InRootD            // workspace; `D` directive in main.journal (the workspace ignores D directives: no format applies)
-	c04Nowhere            // workspace; no format declared
+	c04InDoc     = iota // no workspace; `commodity` directive in the document
+	c04InDocD           // no workspace; `D` directive in the document
+	c04InRoot           // workspace; `commodity` directive in main.journal, which includes the document
+	c04InSibling        // workspace; `commodity` directive in a sibling file included by main.journal
+	c04InDocWs          // workspace; `commodity` directive in the document (included by main.journal)
+	c04InRootD          // workspace; `D` directive in main.journal (the workspace ignores D directives: no format applies)
+	c04Nowhere          // workspace; no format declared
 	c04WhereKinds
 )
 
